@@ -85,14 +85,18 @@ func runC04(p *core.Prog, r *core.Result) {
 		}
 		goes++
 		// dominated by the store status = running on the same target
-		okStore := false
-		core.Instrs(a.start, func(in ssa.Instruction) {
-			if st, ok := in.(*ssa.Store); ok && core.IsField(st.Addr, pkgRunner, "target", "status") {
-				if core.Dominates(st, g) && core.Path(st.Addr.(*ssa.FieldAddr).X) == core.Path(g.Call.Args[0]) {
-					okStore = true
+		okStore := true
+		for _, pt := range p.EffectivePoints(g) {
+			dom := false
+			core.Instrs(a.start, func(in ssa.Instruction) {
+				if st, ok := in.(*ssa.Store); ok && core.IsField(st.Addr, pkgRunner, "target", "status") {
+					if core.Dominates(st, pt) && core.Path(st.Addr.(*ssa.FieldAddr).X) == core.Path(g.Call.Args[0]) {
+						dom = true
+					}
 				}
-			}
-		})
+			})
+			okStore = okStore && dom
+		}
 		r.Check(okStore, "R4.2", "runner.(*target).start#go-run", p.InstrPos(g), "the go statement is dominated by the store to status of the same target", "the go statement is not dominated by a store to status of the same target")
 	}
 	r.Floor("R4.2", goes, 1, "go (*target).run sites")
@@ -227,26 +231,28 @@ func checkStartAtomic(p *core.Prog, r *core.Result, a *runnerAnchors) {
 		if !ok {
 			continue
 		}
-		facts := p.FactsAt(g)
-		idle := facts.Find(func(cond ssa.Value, val bool) bool {
-			b, ok := cond.(*ssa.BinOp)
-			if !ok {
-				return false
-			}
-			for _, pr := range [][2]ssa.Value{{b.X, b.Y}, {b.Y, b.X}} {
-				isLoad := false
-				for _, ld := range loads {
-					if pr[0] == ssa.Value(ld) {
-						isLoad = true
+		idle := true
+		for _, pt := range p.EffectivePoints(g) {
+			idle = idle && p.FactsAt(pt).Find(func(cond ssa.Value, val bool) bool {
+				b, ok := cond.(*ssa.BinOp)
+				if !ok {
+					return false
+				}
+				for _, pr := range [][2]ssa.Value{{b.X, b.Y}, {b.Y, b.X}} {
+					isLoad := false
+					for _, ld := range loads {
+						if pr[0] == ssa.Value(ld) {
+							isLoad = true
+						}
+					}
+					k, okc := core.ConstInt(pr[1])
+					if isLoad && okc && k == 0 {
+						return (b.Op == token.EQL && val) || (b.Op == token.NEQ && !val)
 					}
 				}
-				k, okc := core.ConstInt(pr[1])
-				if isLoad && okc && k == 0 {
-					return (b.Op == token.EQL && val) || (b.Op == token.NEQ && !val)
-				}
-			}
-			return false
-		})
+				return false
+			})
+		}
 		r.Check(idle, "R4.1", "runner.(*target).start#spawn-on-idle", p.InstrPos(g), "the target is spawned only when the tested status was idle", "the spawn is not conditioned on status == idle: a running or finished target can be spawned again")
 	}
 }
@@ -270,63 +276,56 @@ func checkResultsWiring(p *core.Prog, r *core.Result, a *runnerAnchors) {
 			r.Unk("R4.4", construct, pos, "cannot see which slice element is waited on")
 			continue
 		}
-		// wait result stored into results[idx].Error with same idx
-		okErr, okTgt := false, false
-		for _, ref := range *w.Referrers() {
-			st, ok := ref.(*ssa.Store)
+		// resultSlot reports whether addr designates field `field` of results[idx] for the same idx,
+		// either directly or through a local Result value that is then stored into results[idx].
+		resultSlot := func(addr ssa.Value, field string) bool {
+			fa, ok := addr.(*ssa.FieldAddr)
 			if !ok {
-				continue
+				return false
 			}
-			fa, ok := st.Addr.(*ssa.FieldAddr)
-			if !ok {
-				continue
+			if o, f := core.FieldOf(fa); o == nil || o.Obj().Name() != "Result" || f != field {
+				return false
 			}
-			if _, f := core.FieldOf(fa); f != "Error" {
-				continue
-			}
-			if ia, ok := fa.X.(*ssa.IndexAddr); ok && ia.Index == tIdx.Index {
-				okErr = true
-			}
-		}
-		// Target field of the same index receives targets[idx].target
-		core.Instrs(fn, func(in ssa.Instruction) {
-			st, ok := in.(*ssa.Store)
-			if !ok || st.Block() != w.Block() {
-				return
-			}
-			fa, ok := st.Addr.(*ssa.FieldAddr)
-			if !ok {
-				return
-			}
-			if _, f := core.FieldOf(fa); f != "Target" {
-				return
-			}
-			ia, ok := fa.X.(*ssa.IndexAddr)
-			if !ok || ia.Index != tIdx.Index {
-				return
-			}
-			if v, ok := st.Val.(*ssa.UnOp); ok && v.Op == token.MUL {
-				if f2, ok := v.X.(*ssa.FieldAddr); ok && core.IsField(f2, pkgRunner, "target", "target") && f2.X == ssa.Value(ld) {
-					// the load of .target must come after wait returned
-					if core.Dominates(w, v) {
-						okTgt = true
-					}
-				}
-			}
-		})
-		// loop covers all elements: the loop bound is len(targets) and there is no exit from the body other than the loop test
-		full := false
-		if phiIdx, ok := tIdx.Index.(*ssa.BinOp); ok { // t56 = t55 + 1
-			for _, ref := range *phiIdx.Referrers() {
-				if cmp, ok := ref.(*ssa.BinOp); ok && cmp.Op == token.LSS {
-					if ln, ok := cmp.Y.(*ssa.Call); ok {
-						if b, ok := ln.Call.Value.(*ssa.Builtin); ok && b.Name() == "len" && sameSlice(ln.Call.Args[0], tIdx.X) {
-							full = true
+			switch x := fa.X.(type) {
+			case *ssa.IndexAddr:
+				return x.Index == tIdx.Index
+			case *ssa.Alloc:
+				// local composite literal: its value must be stored into results[idx]
+				for _, ref := range *x.Referrers() {
+					if l, ok := ref.(*ssa.UnOp); ok && l.Op == token.MUL {
+						for _, r2 := range *l.Referrers() {
+							if st, ok := r2.(*ssa.Store); ok {
+								if ia, ok := st.Addr.(*ssa.IndexAddr); ok && ia.Index == tIdx.Index {
+									return true
+								}
+							}
 						}
 					}
 				}
 			}
+			return false
 		}
+		okErr, okTgt := false, false
+		core.Instrs(fn, func(in ssa.Instruction) {
+			st, ok := in.(*ssa.Store)
+			if !ok {
+				return
+			}
+			if core.Unwrap(st.Val) == ssa.Value(w) && resultSlot(st.Addr, "Error") {
+				okErr = true
+			}
+			if resultSlot(st.Addr, "Target") {
+				if v, ok := core.Unwrap(st.Val).(*ssa.UnOp); ok && v.Op == token.MUL {
+					if f2, ok := v.X.(*ssa.FieldAddr); ok && core.IsField(f2, pkgRunner, "target", "target") && f2.X == ssa.Value(ld) {
+						// the load of .target must come after wait returned
+						if core.Dominates(w, v) {
+							okTgt = true
+						}
+					}
+				}
+			}
+		})
+		full := p.LoopIndexCoversAll(tIdx.Index, tIdx.X, w, sameSlice)
 		body := w.Block()
 		early := false
 		for _, s := range body.Succs {
@@ -336,7 +335,7 @@ func checkResultsWiring(p *core.Prog, r *core.Result, a *runnerAnchors) {
 		}
 		r.Check(okErr, "R4.4", construct+":Error", pos, "results[i].Error receives wait() of targets[i] (same index value)", "the result of wait() on targets[i] is not stored into results[i].Error")
 		r.Check(okTgt, "R4.4", construct+":Target", pos, "results[i].Target receives targets[i].target, read after wait() returned", "results[i].Target is not targets[i].target read after the wait")
-		r.Check(full && !early, "R4.4", construct+":all", pos, "the wait loop runs over every requested target without early exit", "the wait loop may skip requested targets (bound is not len(targets) or the body can leave the loop)")
+		r.Check(full && !early, "R4.4", construct+":all", pos, "the wait loop runs over every requested target (index 0..len-1) without early exit", "the wait loop may skip requested targets (index does not run 0..len(targets)-1 or the body can leave the loop)")
 	}
 }
 
@@ -526,7 +525,6 @@ func runC05(p *core.Prog, r *core.Result) {
 	// R5.5
 	checkWaitOutsideSlot(p, r, a, "R5.5")
 }
-
 
 // checkWaitOutsideSlot: in EvaluateTargets every wait() is dominated by gate.exit with no enter in between.
 func checkWaitOutsideSlot(p *core.Prog, r *core.Result, a *runnerAnchors, rule string) {
